@@ -3,7 +3,7 @@ from __future__ import annotations
 
 from harness.core import Prop
 
-VAL_SQL = {"n7": "7", "n42": "42", "sx": "'x'", "sq": "'it''s'", "expr": "1 + 2"}
+VAL_SQL = {"n7": "7", "n42": "42", "sx": "'x'", "sq": "'it''s'", "expr": "1 + 2", "nneg": "-5"}
 OK_STATUS = [("Statement executed successfully.",)]
 
 
@@ -34,12 +34,13 @@ class C15(Prop):
     gen_module = "FsVarsGen"
     judge_module = "FsVarsJudge"
     assumptions = [
-        "variable names V, V1, V10 (prefixes of each other), B, AB in lower/upper/mixed case; values 7, 42, 'x', 'it''s', 1+2",
+        "variable names V, V1, V10 (prefixes of each other), B, AB in lower/upper/mixed case; values 7, 42, -5, 'x', 'it''s', 1+2; bound text that looks like a reference; "
+        "statements that neither set nor use a variable (answered with and without reaching the engine) in between",
         "two connections of one instance, each observed through a long-lived cursor and through fresh cursors",
         "UNSET of a variable that is not set may succeed or raise ProgrammingError (the property does not say)",
     ]
     ALLN = {"V", "V1", "V10", "B", "AB"}
-    ALLV = {"n7", "n42", "sx", "sq", "expr"}
+    ALLV = {"n7", "n42", "sx", "sq", "expr", "nneg"}
 
     def consts(self, tier):
         return {"Conns": {"c1", "c2"}, "Names": self.ALLN, "Vals": self.ALLV, "CasingsUsed": {"lower", "upper", "mixed"}, "CursUsed": {1, 2}}
@@ -61,13 +62,13 @@ class C15(Prop):
         g = [
             # every operation sequence up to a bounded length over a tiny vocabulary: repeats of the same statement text
             # with SET / UNSET in between (statement caches, stale state)
-            dict(name="paths", mode="paths", consts=dict(small, Conns={"c1"}, Names={"V"}, Vals={"n7", "n42"}, Depth=6 if big else 5)),
+            dict(name="paths", mode="paths", sample=None if big else 5000, consts=dict(small, Conns={"c1"}, Names={"V"}, Vals={"n7", "n42"}, Depth=6 if big else 5)),
             dict(name="paths2", mode="paths", sample=None if big else 3000,
                  consts=dict(small, Conns={"c1", "c2"}, Names={"V"}, Vals={"n7", "n42"}, Depth=5 if big else 4)),
             dict(name="walks_small", mode="walks", depth=12, num=2000 if big else 400, seed_offset=5,
                  consts=dict(small, CursUsed={1, 2}, Conns={"c1", "c2"}, Names={"V", "V1"}, Vals={"n7", "n42", "sx"}, Depth=12)),
             dict(name="edges", mode="edges", sample=None if big else 3000,
-                 consts=dict(base, Conns={"c1", "c2"}, Names={"V", "V1"}, Vals={"n7", "sx", "expr"}, Depth=5)),
+                 consts=dict(base, Conns={"c1", "c2"}, Names={"V", "V1"}, Vals={"n7", "sx", "expr", "nneg"}, Depth=5)),
             dict(name="edges_prefix", mode="edges", sample=None if big else 3000,
                  consts=dict(base, Conns={"c1"}, Names={"V", "V1", "V10"}, Vals={"n7", "n42"}, Depth=6)),
             dict(name="walks", mode="walks", depth=10, num=3000 if big else 600,
@@ -88,7 +89,8 @@ class C15(Prop):
 
         global _FS
         if _FS is None:
-            _FS = fakesnow.instance.FakeSnow()
+            _FS = fakesnow.instance.FakeSnow(nop_regexes=["^CALL VT_NOP"])
+            _FS.connect("DB1", "S1").cursor().execute("create table if not exists vt_other (x int)")
         conns = {c: _FS.connect("DB1", "S1") for c in ("c1", "c2")}
         longcur = {c: conns[c].cursor() for c in conns}
         ev = []
@@ -112,12 +114,21 @@ class C15(Prop):
                 sql = f"{kw('select')} 'p ${sp} q'"
             elif k == "lit5":
                 sql = f"{kw('select')} 'cost $5'"
+            elif k == "bind":
+                sql = f"{kw('select')} %s"
+            elif k == "other":
+                sql = {"cluster_by": "alter table vt_other cluster by (x)", "nop_regex": "call vt_nop()", "select1": "select 1"}[op["w"]]
             else:
                 raise ValueError(k)
             try:
-                cur.execute(sql)
+                if k == "bind":
+                    cur.execute(sql, (f"p ${sp} q",))
+                else:
+                    cur.execute(sql)
                 rows = cur.fetchall()
-                if k in ("set", "unset"):
+                if k == "other":
+                    obs = {"res": "ok" if len(rows) == 1 else "badstatus", "vals": []}
+                elif k in ("set", "unset"):
                     obs = {"res": "ok" if rows == OK_STATUS else "badstatus", "vals": []}
                 else:
                     obs = {"res": "rows", "vals": [canon(v) for v in rows[0]]} if len(rows) == 1 else {"res": "badrows", "vals": []}
